@@ -234,7 +234,7 @@ func runHistory(c *hx.Ctx, k int, r *rand.Rand, proto string) (classes []string,
 						el = append(append([]regtable.Elem{}, el...), elU32)
 					}
 				}
-				rec := gen.Records(r, el, 1, 4000)[0]
+				rec := gen.One(r, el, 4000)
 				if err := set.AddRecord(lib.RecordValues(el, rec, r), t.tid); err != nil {
 					return
 				}
@@ -313,7 +313,7 @@ func runHistory(c *hx.Ctx, k int, r *rand.Rand, proto string) (classes []string,
 			badAt := r.IntN(nrec)
 			for j := 0; j < nrec; j++ {
 				// a good value for the "bad" element in the other records
-				rec := gen.Records(r, elems, 1, 4000)[0]
+				rec := gen.One(r, elems, 4000)
 				vals := lib.RecordValues(elems, rec, r)
 				if j == badAt {
 					vals[pos] = badVal
